@@ -1,1 +1,2 @@
 add_harness(c14_calc props/c14_calc.cc)
+add_harness(c14_step props/c14_step.cc)
